@@ -328,6 +328,139 @@ fn deep_sets() -> Vec<(String, Vec<(String, String)>)> {
     out
 }
 
+
+// ------------------------------------------------------------------ unbounded recursion (child process)
+
+/// Programs whose rendering recurses without bound unless the component depth guard stops it.
+/// None has an include cycle at template level, so registration may accept them; every render
+/// must end in an error VALUE ("Maximum render recursion depth ..."), never in a stack overflow.
+fn recursion_sets() -> Vec<(String, Vec<(String, String)>)> {
+    let s = |l: &str, v: Vec<(&str, &str)>| (format!("rec:{l}"), v.into_iter().map(|(a, b)| (a.to_string(), b.to_string())).collect::<Vec<_>>());
+    vec![
+        s("self", vec![("w", "{% component R() %}x{{ <R/> }}{% endcomponent R %}"), ("page", "{{ <R/> }}")]),
+        s("self-body", vec![("w", "{% component R() %}[{{ body }}{% <R> %}y{% </R> %}]{% endcomponent R %}"), ("page", "{% <R> %}z{% </R> %}")]),
+        s("self-arg", vec![("w", "{% component R(v = 1) %}{{ <R v={ <R/> }/> }}{% endcomponent R %}"), ("page", "{{ <R/> }}")]),
+        s("mutual", vec![("w", "{% component A() %}a{{ <B/> }}{% endcomponent A %}{% component B() %}b{% <A> %}{% </A> %}{% endcomponent B %}"), ("page", "{{ <A/> }}{{ <B/> }}")]),
+        s("mutual3-loop", vec![("w", "{% component A() %}{% for i in [1, 2] %}{{ <B/> }}{% endfor %}{% endcomponent A %}{% component B() %}{% if true %}{{ <C/> }}{% endif %}{% endcomponent B %}{% component C() %}{{ [<A/> for i in [1]] }}{% endcomponent C %}"), ("page", "{{ <C/> }}")]),
+        s("component-include-component", vec![("widgets", "{% component Tree() %}<ul>{% include \"page\" %}</ul>{% endcomponent Tree %}"), ("page", "<li>{{ <Tree /> }}</li>")]),
+        s("component-include-include-component", vec![("widgets", "{% component Tree() %}{% include \"mid\" %}{% endcomponent Tree %}"), ("mid", "m{% include \"page\" %}"), ("page", "{{ <Tree/> }}")]),
+        s("body-includes-caller", vec![("w", "{% component Box() %}<b>{{ body }}{% include \"inner\" %}</b>{% endcomponent Box %}"), ("inner", "{% <Box> %}x{% </Box> %}"), ("page", "{% include \"inner\" %}")]),
+        s("call-body-includes", vec![("w", "{% component Box() %}<b>{{ body }}</b>{% endcomponent Box %}{% component Go() %}{% <Box> %}{% include \"page\" %}{% </Box> %}{% endcomponent Go %}"), ("page", "p{{ <Go/> }}")]),
+        s("through-super", vec![("w", "{% component T() %}{% include \"child\" %}{% endcomponent T %}"), ("base", "B{% block b %}{{ <T/> }}{% endblock %}"), ("child", "{% extends \"base\" %}{% block b %}c{{ super() }}{% endblock %}")]),
+        s("through-block", vec![("w", "{% component T() %}{% include \"page\" %}{% endcomponent T %}"), ("page", "{% block a %}{% block b %}{{ <T/> }}{% endblock %}{% endblock %}")]),
+        s("through-set-capture", vec![("w", "{% component S() %}{% set x %}{% include \"pg\" %}{% endset %}{{ x }}{% endcomponent S %}"), ("pg", "{{ <S/> }}")]),
+        s("through-filter-section", vec![("w", "{% component S() %}{% filter upper %}{% include \"pg\" %}{% endfilter %}{% endcomponent S %}"), ("pg", "{% set_global g %}{{ <S/> }}{% endset %}{{ g }}")]),
+        s("through-kwarg", vec![("w", "{% component S(v = 1) %}{{ v }}{% include \"pg\" %}{% endcomponent S %}"), ("pg", "{{ 1 | default(value=<S v={ 2 }/>) }}{{ <S v={ <S/> }/> }}")]),
+    ]
+}
+
+/// `c07 --child`: stdin = {"templates": [[name, src]..], "render": name, "block": b?, "component": c?}
+fn child_main() {
+    use std::io::Read;
+    let mut inp = String::new();
+    std::io::stdin().read_to_string(&mut inp).expect("stdin");
+    let j: serde_json::Value = serde_json::from_str(&inp).expect("json");
+    let set: Vec<(String, String)> = j["templates"].as_array().unwrap().iter().map(|p| (p[0].as_str().unwrap().to_string(), p[1].as_str().unwrap().to_string())).collect();
+    let mut tera = Tera::default();
+    if let Err(e) = tera.add_raw_templates(set) {
+        println!("{}", json!({"rejected": format!("{e}")}));
+        return;
+    }
+    let ctx = Context::new();
+    let r = if let Some(c) = j.get("component").and_then(|c| c.as_str()) {
+        guarded(|| tera.render_component(c, &ctx, Some("b"), true))
+    } else if let Some(b) = j.get("block").and_then(|b| b.as_str()) {
+        guarded(|| tera.render_block(j["render"].as_str().unwrap(), b, &ctx))
+    } else {
+        guarded(|| tera.render(j["render"].as_str().unwrap(), &ctx))
+    };
+    println!("{}", r.json(|s| json!(s.len())));
+}
+
+/// Ok(json of the child) or Err(how it died)
+fn run_child(input: &serde_json::Value) -> Result<serde_json::Value, String> {
+    use std::io::{Read, Write};
+    let exe = std::env::current_exe().unwrap();
+    let mut ch = std::process::Command::new(exe)
+        .arg("--child")
+        .stdin(std::process::Stdio::piped())
+        .stdout(std::process::Stdio::piped())
+        .stderr(std::process::Stdio::null())
+        .spawn()
+        .expect("spawn child");
+    ch.stdin.take().unwrap().write_all(input.to_string().as_bytes()).unwrap();
+    let t0 = std::time::Instant::now();
+    loop {
+        match ch.try_wait().unwrap() {
+            Some(st) => {
+                let mut out = String::new();
+                ch.stdout.take().unwrap().read_to_string(&mut out).ok();
+                if !st.success() {
+                    return Err(format!("child process died: {st}"));
+                }
+                return serde_json::from_str(out.trim()).map_err(|_| format!("child output {out:?}"));
+            }
+            None => {
+                if t0.elapsed().as_secs() > 30 {
+                    ch.kill().ok();
+                    ch.wait().ok();
+                    return Err("child process timed out after 30 s".into());
+                }
+                std::thread::sleep(std::time::Duration::from_millis(3));
+            }
+        }
+    }
+}
+
+/// (renders, error values, text, rejected sets)
+fn recursion_oracle(o: &mut Oracle) -> (usize, usize, usize, usize) {
+    let (mut n, mut errs, mut texts, mut rejected) = (0usize, 0usize, 0usize, 0usize);
+    for (label, set) in recursion_sets() {
+        let tpls: Vec<serde_json::Value> = set.iter().map(|(a, b)| json!([a, b])).collect();
+        // what to render: every template, every block, every component (discovered in-process:
+        // registration does not recurse)
+        let mut tera = Tera::default();
+        if tera.add_raw_templates(set.clone()).is_err() {
+            rejected += 1;
+            continue;
+        }
+        let mut targets: Vec<serde_json::Value> = Vec::new();
+        for (name, _) in &set {
+            targets.push(json!({"templates": tpls, "render": name}));
+            if let Some(tl) = template_listing(&tera, name) {
+                for (b, _) in &tl.lineage {
+                    targets.push(json!({"templates": tpls, "render": name, "block": b}));
+                }
+            }
+        }
+        for (c, _, _) in component_listings(&tera) {
+            targets.push(json!({"templates": tpls, "render": "", "component": c}));
+        }
+        for t in targets {
+            n += 1;
+            o.renders += 1;
+            o.meta.oracle_checks += 1;
+            match run_child(&t) {
+                Err(how) => o.meta.oracle_fail(
+                    &format!("unbounded recursion through components is not stopped by the depth guard: {how}"),
+                    None,
+                    json!({"case": label, "set": set, "target": {"render": t["render"], "block": t.get("block"), "component": t.get("component")}}),
+                ),
+                Ok(j) => {
+                    if j.get("panic").is_some() {
+                        o.meta.oracle_fail(&format!("panic while rendering a recursive program: {}", j["panic"]), None, json!({"case": label, "set": set}));
+                    } else if j.get("err").is_some() {
+                        errs += 1;
+                    } else {
+                        texts += 1;
+                    }
+                }
+            }
+        }
+    }
+    (n, errs, texts, rejected)
+}
+
 // ------------------------------------------------------------------ model-side printing
 
 fn nontrivial_chunk(l: &Listing) -> bool {
@@ -454,6 +587,11 @@ fn sort_kf(src: &str, vals: &[&Value]) -> Option<&'static str> {
 }
 
 fn main() {
+    if std::env::args().any(|a| a == "--child") {
+        silence_panics();
+        child_main();
+        return;
+    }
     let args = parse_args();
     silence_panics();
     if let Some(rp) = &args.replay {
@@ -728,6 +866,9 @@ fn main() {
         wld.push_with_defs(&[reg_def.clone()], term, json!({"set": label, "templates": set, "chunks": n_chunks, "planted_unknown_name": true}), false, None, &["world", "accepted-with-planted-name"]);
     }
 
+    // =========================================================== unbounded recursion, child process
+    let (rec_n, rec_errs, rec_texts, rec_rejected) = recursion_oracle(&mut o);
+
     let (renders, ok_text, errs, kinds_hit) = (o.renders, o.ok_text, o.errs, o.kinds_hit.clone());
     drop(o);
     meta.extra.insert("sets_accepted".into(), json!(accepted_sets));
@@ -738,6 +879,10 @@ fn main() {
     meta.extra.insert("h1_text".into(), json!(ok_text));
     meta.extra.insert("h1_error_values".into(), json!(errs));
     meta.extra.insert("matrix_cells".into(), json!(cells));
+    meta.extra.insert("recursion_child_renders".into(), json!(rec_n));
+    meta.extra.insert("recursion_child_error_values".into(), json!(rec_errs));
+    meta.extra.insert("recursion_child_text".into(), json!(rec_texts));
+    meta.extra.insert("recursion_sets_rejected_at_registration".into(), json!(rec_rejected));
     meta.extra.insert("matrix_distribution".into(), json!(kinds_hit));
     meta.extra.insert("unknown_name_cases".into(), json!(unk_cases));
     meta.extra.insert("unknown_name_rejected_at_registration".into(), json!(unk_rejected));
